@@ -13,9 +13,9 @@ typedef void *voidp;
 #ifdef H4V_CBMC
 /* Trusted model of memset for the one use in dynarray.c: zeroing the tail of a pointer array.
  * CBMC 6.11's built-in model (array_set/array_replace on a byte view) gives spurious non-NULL
- * pointers for non-char arrays at a symbolic offset (probed), so the tail is zeroed word by word
- * under a loop contract.  g_ms_k is a ghost word index relative to s (the harness ties it to
- * g_o); all other words of the tail are left arbitrary (over-approximation). */
+ * pointers for non-char arrays at a symbolic offset (probed), so the model is: the ghost word g_ms_k (index
+ * relative to s; the harness ties it to g_o) becomes NULL, every other word of the region is
+ * left arbitrary (havoc) -- an over-approximation of "all words become zero". */
 long g_ms_k;
 void *
 memset(void *s, int c, size_t n)
@@ -23,13 +23,11 @@ memset(void *s, int c, size_t n)
     voidp *p = s;
     size_t w = n / sizeof(voidp);
     __CPROVER_assert(c == 0 && n % sizeof(voidp) == 0, "H4V: memset model domain (zeroing whole pointer slots)");
-    for (size_t i = 0; i < w; i++)
-        __CPROVER_assigns(i, __CPROVER_object_from(p))
-        __CPROVER_loop_invariant(i <= w && ((0 <= g_ms_k && g_ms_k < i) ==> p[g_ms_k] == (voidp)0))
-        __CPROVER_decreases(w - i)
-    {
-        p[i] = (voidp)0;
-    }
+#ifndef DA_MS_NOHAVOC
+    __CPROVER_havoc_slice(s, n);
+#endif
+    if (0 <= g_ms_k && (size_t)g_ms_k < w)
+        p[g_ms_k] = (voidp)0;
     return s;
 }
 #endif
